@@ -112,6 +112,29 @@ CLAIMED = {
   ref="DESIGN.md §3 C20"),
 }
 
+# Rules added in the second pass (round-2 seeds and defects D12-D22); appended to the claim text.
+SECOND_PASS = {
+ "C01": " Second pass: SQLite default comparison is exact (no folding of unquoted literals), every computeDiff call uses diffOptions() with DiffNormalized, every normalizeIdxName argument carries its parts, searches over the stored CREATE text are case-insensitive with offsets from the same text.",
+ "C02": " Second pass: named CHECK constraints fall back to expression matching only when a name is empty (CFG), no attribute of one compared object is computed from the other before they are compared, sqlx.MayWrap is applied to both sides of every comparison.",
+ "C03": " Second pass: case-insensitive keyword searches over the stored CREATE text (regexp/syntax fold-flag walk) with same-text offsets, referential actions printed under their own guard, user-defined type names printed unchanged, MayWrap symmetry, exact float rendering and the exponent guard of the default marshaller.",
+ "C04": " Second pass: a foreign key stays inline only under a self-reference test; the root and dependency loops of sortMap cannot be left early.",
+ "C05": " Second pass: no early break/continue leaves a copying case before the column is appended.",
+ "C07": " Second pass: line-oriented readers append the scanned line unchanged and a reader that ends statements at line ends is paired with a formatter that brackets or guards multi-line statements; template function names are taken from the repo's FuncMap literals.",
+ "C08": " Second pass: skipSpaces removes at least the whitespace class emit strips; strip-both-ends slices are implied in range by their guards (overlapping prefix/suffix rejected).",
+ "C09": " Second pass: Total is kept in sync on a completed resume; a partial revision is pending wherever it stands (non-linear order).",
+ "C10": " Second pass: the Pending rules of C09/C11 (completeness from Applied/Total alone, partial revision anywhere, lower-bounded pending lists) run here too, because the re-run after a crash is decided by Executor.Pending.",
+ "C11": " Second pass: a partial revision is pending wherever it stands; every pending list returned once revisions exist is bounded from below by a version search; a temporary replacement of Executor.dir is restored on every path.",
+ "C12": " Second pass: Executor.Pending compares Applied with Total only for (in)equality and reads no other field (a shrunk file is not mistaken for a complete one).",
+ "C15": " Second pass: converter/marshaller key agreement per resource level, no successful return before the last attribute-writing statement of a marshalling function, exact rendering of *big.Float, exponent guard before ParseInt, user-defined type names printed unchanged.",
+ "C16": " Second pass: every Driver.PlanChanges call of a Planner method forwards p.planOpts.",
+ "C17": " Second pass: scratch planner states whose Changes become a Reverse are fresh; sqltool.reverse matches a complete reversal idiom.",
+ "C18": " Second pass: guard, window width and step of the SQLite rebuild detector agree.",
+ "C19": " Second pass: exclusion side effects only on matching resources; no planner re-creates a table from ModifyTable.T (SQLite rebuild: known finding D16).",
+ "C20": " Second pass: file bytes come from a buffer created in the same function; no in-place filter/delete on an input slice in planner/differ files.",
+}
+for _k, _v in SECOND_PASS.items():
+    CLAIMED[_k]["text"] += _v
+
 NA = {}
 
 def main():
